@@ -1,6 +1,6 @@
 (* C07 — TaskGroup.start(): readiness handshake is exact and loses nothing.
    This file contains only statements closed by `exact` and their Print Assumptions. *)
-From AV Require Import Base Machine GroupInv GroupInv2 GroupThmsPure GroupThms GroupThms6 GroupThms7.
+From AV Require Import Base Machine GroupInv GroupInv2 GroupThmsPure GroupThms GroupThms6 GroupThms7 GroupThms8 GroupThms10.
 
 Theorem C07_start_returns_started_value : forall s t g c f h v, reach s -> k_ctl (tasks s t) = CStartWait g c f ->
   (h = HStep t \/ exists f', h = HWake t f') -> snd (step s (ARun h)) = RRet v ->
@@ -68,3 +68,14 @@ Theorem C07_second_started_keeps_future : forall s t v f, reach s -> idle s t = 
   f_st (futs (fst (step s (AStarted t v))) f) = f_st (futs s f).
 Proof. exact second_started_keeps_future. Qed.
 Print Assumptions C07_second_started_keeps_future.
+
+(* the caller waiting in CStartJoin (or any suspended task) keeps its control state until one of its own handles
+   is run: acting o is the actor of a puppet op, resp. the task of the handle being run *)
+Theorem C07_ctl_changes_only_when_acting : forall s o t, t < ntask s ->
+  t <> (match actor o with
+        | Some a => a
+        | None => match o with ARun (HStep x) | ARun (HWake x _) | ARun (HTaskDone x) => x | _ => 0 end
+        end) ->
+  k_ctl (tasks (fst (step s o)) t) = k_ctl (tasks s t) /\ k_cur (tasks (fst (step s o)) t) = k_cur (tasks s t).
+Proof. exact ctl_changes_only_when_acting. Qed.
+Print Assumptions C07_ctl_changes_only_when_acting.
